@@ -116,6 +116,7 @@ PROPS = {
         "replays": [
             {"bin": "d5a_push_at_253", "finding": "D5a"},
             {"bin": "d6_append_slice_open_label", "finding": "D6"},
+            {"bin": "d15_append_name_open_label", "finding": "D15"},
             {"bin": "d5_append_label_at_limit", "finding": "D5", "expect": "fail"},
         ],
         "explanation": "Name::check_slice / RelativeName::check_slice accept exactly abs_name / rel_name of at most 255 / 254 octets "
